@@ -89,6 +89,21 @@ def full_run(tier, seed, log=print):
     open(path, "w").write(text)
     r.em, r.path, r.lines = em, path, em.lines
     r.res = P.run_verus(path)
+    r.havoc = []
+    final_text = text
+    # Unmodelled external (std) functions: Verus names the missing specification; it is added with NO postcondition
+    # (result unconstrained, no panic assumed) and the run is repeated.  Logged in evidence/replay.
+    for _round in range(4):
+        decls = P.suggested_external_specs(r.res)
+        decls = [d for d in decls if d not in r.havoc]
+        if not decls:
+            break
+        r.havoc += decls
+        text2 = text.replace(P.FOOTER, "pub mod auto_havoc {\nuse super::*;\nuse super::deps::*;\nuse super::spec::*;\n" +
+                             "\n".join(r.havoc) + "\n} // mod auto_havoc\n" + P.FOOTER)
+        open(path, "w").write(text2)
+        final_text = text2
+        r.res = P.run_verus(path)
     r.an = P.analyse(r.res, em, path)
     if r.an.build_errors:
         raise P.Undecided("the generated file does not compile (construct outside the supported subset, or a contract "
@@ -99,7 +114,7 @@ def full_run(tier, seed, log=print):
     r.verified, r.errors = vr.get("verified", 0), vr.get("errors", 0)
     r.fn_times = P.function_times(r.res)
     # vacuity run
-    vtext, probes = P.add_vacuity_probes(text, em.functions)
+    vtext, probes = P.add_vacuity_probes(final_text, em.functions)
     vpath = os.path.join(P.BUILD, "bcenv_vacuity.rs")
     open(vpath, "w").write(vtext)
     vres = P.run_verus(vpath, multiple_errors=8)
@@ -200,6 +215,7 @@ def decide(prop, r, tier, seed, meta):
                                            "verus_output": f["rendered"]} for f in new_fail],
                    "counterexample": None,
                    "annotations_not_placed": [d for d in em.degraded],
+                   "unmodelled_external_functions_treated_as_unconstrained": [d.split("]")[0].split("[")[-1] for d in r.havoc],
                    "note": "Verus reports no model; no failing concrete input was searched/found. Re-run with `./check replay <this file>`.",
                    "checker_cmd": r.res["cmd"]}, open(replay, "w"), indent=1)
         names = ",".join(sorted({(f["ob"] or ("%s@%s[%s]" % (f["kind"], f["fn"], f["site_text"][:50]))).replace(" ", "_") for f in new_fail}))[:600]
@@ -247,6 +263,7 @@ def evidence(prop, r, tier, seed, meta, obs, panic, calls, new_fail, known_hit, 
                            "all_obligations": len(em.obs)},
             "extraction": {"rewrites": em.rewrites, "dropped": "doc comments, comments, #[cfg(feature)] attrs (default features), #[inline]/#[allow]/#[derive] attrs, visibility qualifiers normalised"},
             "annotations_not_placed": list(em.degraded),
+            "unmodelled_external_functions_treated_as_unconstrained": [d.split("]")[0].split("[")[-1] for d in r.havoc],
             "vacuity_probes": {"total": r.vac_total, "silent": r.vac_silent},
             "solver_ms": smt_total, "verus_wall_s": round(r.res["wall"], 2), "vacuity_wall_s": round(r.vac_wall, 2),
             "known_finding_clauses": [k.get("id") for _, k in known_hit],
